@@ -31,7 +31,12 @@ def gen_case(case):
     srcs = []
     meta = {"solid_only": solid_only}
     mode = r.random()
-    if mode < 0.2:
+    if mode < 0.07:
+        meta["mode"] = "same-body-other-viewbox"
+        srcs.extend(svggen.same_body_other_viewbox_set(r, r.randint(2, 4), pal=pal))
+        if cfg.get("reuse_tolerance", 0.1) in (-1, 0.0) and r.random() < 0.7:
+            cfg["reuse_tolerance"] = 0.1
+    elif mode < 0.2:
         meta["mode"] = "grid-recurrence"
         svgs, gcfg, m = svggen.grid_recurrence_set(r, r.randint(2, 3), gradients=not solid_only, pal=pal)
         cfg.update(gcfg)
